@@ -784,6 +784,10 @@ for _n in ("trapezoid", "trapz"):
             g.r.randint(2, 5)), _trap_res),
         dx=V(lambda g: C(qx(g, lo=1), dx=QA("Y", g.pos(()))), _trap_res),
         dx_bare=V(lambda g: C(qx(g, lo=1), dx=2.5), _trap_res),
+        # unit-less, non-uniform sample points next to a quantity integrand
+        x_bare=V(lambda g: (lambda n: C(QA("X", g.gen((n,))), _coords(g, n)))(g.r.randint(2, 5)), _trap_res),
+        xkw_bare=V(lambda g: (lambda n: C(QA("X", g.gen((2, n))), x=_coords(g, n)))(g.r.randint(2, 5)),
+                   _trap_res),
         axis=V(lambda g: C(QA("X", g.gen((3, 4))), dx=QA("Y", g.pos(())), axis=0), _trap_res))
 
 XY = U({"X": 1, "Y": 1})
